@@ -294,14 +294,15 @@ def rel_dev(a, b):
     return float(np.abs(a - b).max() / max(1.0, np.abs(a).max()))
 
 
-def replay_dens(c):
-    """Measures of one scenario: base run, a run on permuted data and (axial) a run with random signs."""
+def replay_dens(c, data=None, perm=None, signs=None):
+    """Measures of one scenario: base run, a run on permuted data and (axial) a run with random signs.
+    data / perm / signs are only given when a stored reproducer is re-run."""
     import warnings
 
     warnings.filterwarnings("ignore")
     from pydrex import stats
 
-    d = density_data(c)
+    d = density_data(c) if data is None else np.array(data, dtype=float)
     rng = rng_for("dens-relations", c["data"], c["n"], c["gridsteps"], c["kernel"], c["axial"], c["weight"])
     X, Y, T = _density(stats, d, c)
     nonfinite = int((~np.isfinite(T)).sum() + (~np.isfinite(X)).sum() + (~np.isfinite(Y)).sum())
@@ -310,7 +311,7 @@ def replay_dens(c):
     if nonfinite:
         return dict(kind="dens", axial=c["axial"], m=m), info
     mean = float(T.mean())
-    perm = rng.permutation(len(d))
+    perm = rng.permutation(len(d)) if perm is None else np.array(perm, dtype=int)
     if len(d) > 1 and np.array_equal(perm, np.arange(len(d))):
         perm = np.roll(perm, 1)
     Tp = _density(stats, d[perm], c)[2]
@@ -322,10 +323,14 @@ def replay_dens(c):
         meandef=mu(max(0.0, 1.0 - mean)),
         order=mu(rel_dev(T, Tp)) if np.isfinite(Tp).all() else cap(float("nan")),
     )
-    info.update(perm=perm.tolist(), mean=mean, min=float(T.min()))
+    # a non-negative estimate with grid mean 1 cannot exceed the number of grid points: larger values mean that
+    # estimates of both signs cancelled in the normalising mean (discrete fact, used in the signature only)
+    info.update(perm=perm.tolist(), mean=mean, min=float(T.min()), max=float(T.max()), amplified=bool(T.max() > T.size * (1 + 1e-9)))
     if c["axial"]:
-        signs = rng.choice([-1.0, 1.0], size=len(d))
-        signs[int(rng.integers(len(d)))] = -1.0
+        if signs is None:
+            signs = rng.choice([-1.0, 1.0], size=len(d))
+            signs[int(rng.integers(len(d)))] = -1.0
+        signs = np.array(signs, dtype=float)
         Ts = _density(stats, d * signs[:, None], c)[2]
         m["sign"] = mu(rel_dev(T, Ts)) if np.isfinite(Ts).all() else cap(float("nan"))
         info["signs"] = signs.tolist()
@@ -364,7 +369,7 @@ def judge(records, timeout):
     return [sorted(verdicts[i + 1]) for i in range(len(records))], res
 
 
-def signature(kind, clause, bad, rec, case):
+def signature(kind, clause, bad, rec, case, info):
     head, _, obs = clause.partition(":")
     if kind in ("sph", "sphf"):
         sig = dict(fn="to_spherical", clause=head)
@@ -380,7 +385,10 @@ def signature(kind, clause, bad, rec, case):
         return dict(fn="poles", clause=obs, axes=rec["axes"])
     if kind in ("lam", "lamf", "lift"):
         return dict(fn="lambert_equal_area", clause=obs, pole=bool(rec["pole"]))
-    return dict(fn="point_density", clause=head, kernel=case["kernel"], axial=case["axial"], cap=case["cap"])
+    sig = dict(fn="point_density", clause=head, kernel=case["kernel"], axial=case["axial"], cap=case["cap"])
+    if head in ("order", "sign"):
+        sig["amplified"] = bool(info.get("amplified"))
+    return sig
 
 
 # ------------------------------------------------------------------ main
@@ -512,7 +520,7 @@ def main(tier):
                     continue
                 chk.maximum(f"{rec['kind']}.{k} [1e-18]", v)
         for clause in bad:
-            sig = signature(rec["kind"], clause, bad, rec, case)
+            sig = signature(rec["kind"], clause, bad, rec, case, info)
             key = json.dumps(sig, sort_keys=True)
             tally[key] = tally.get(key, 0) + 1
             chk.violation(sig, f"{rec['kind']} case fails clause '{clause}' of Geometry.tla: {json.dumps(info, default=str)[:260]}", dict(case=case, measures=rec["m"], observed=info, failing=bad))
@@ -533,8 +541,9 @@ def replay(obj):
 
     case = obj["replay"]["case"]
     if case["kind"] == "dens":
-        rec, info = replay_dens(case)
-        print(json.dumps(dict(measures=rec["m"], all_nan=info.get("all_nan")), indent=1))
+        ob = obj["replay"]["observed"]
+        rec, info = replay_dens(case, ob.get("data"), ob.get("perm"), ob.get("signs"))
+        print(json.dumps(dict(measures=rec["m"], all_nan=info.get("all_nan"), mean=info.get("mean"), max=info.get("max")), indent=1))
     elif case["kind"] == "sph":
         rec, info = replay_sph(geo, case)
         print(json.dumps(dict(measures=rec["m"], observed=info), indent=1))
